@@ -379,3 +379,25 @@ Example C04_indep_unconditional_run :
     (Nat.ltb (length F) 120, match stream_decode strict_valid false (S (length F)) [] [] F with Some Y => Z.of_nat (length Y) | None => -1 end) in
   (run 1, run 2, run 9, run 12) = ((true, 120), (true, 120), (true, 120), (true, 120)).
 Proof. vm_compute. reflexivity. Qed.
+
+(* linked blocks / -D dictionary through the STREAMING models (Proofs/BlkInstLinked.v, BlkInstHcLinked.v; see Properties_C03.v) *)
+From LZ4V Require Import Model.FastStream Model.HcTabStream Model.HcOptStream Proofs.BlkInstLinked Proofs.BlkInstHcLinked.
+Theorem C04_st_roundtrip_fast_stream_unconditional : forall st, (forall n, lorc_ok (st n)) ->
+  forall (skipcrc : bool) (p : lz4f_prefs) (blockSize : Z) (dict content : list Z),
+  fp_level p < LZ4HC_CLEVEL_MIN ->
+  1 <= blockSize -> valid_prefs p content -> fp_autoFlush p <> 0 -> lenZ content < U64_MAX1 ->
+  let blk := blk_fast_linked st (fp_level p) in
+  let F := st_output c4_header (c4_frame blk) (c4_update blk) (c4_end blk) p blockSize dict content in
+  stream_decode strict_valid skipcrc (S (length F)) dict [] F = Some content.
+Proof. exact st_roundtrip_fast_stream_unconditional. Qed.
+Print Assumptions C04_st_roundtrip_fast_stream_unconditional.
+
+Theorem C04_st_roundtrip_hc_stream_unconditional : forall st, (forall n, horc_ok (st n)) ->
+  forall (skipcrc : bool) (p : lz4f_prefs) (blockSize : Z) (content : list Z),
+  3 <= fp_level p -> fp_blockMode p = 0 ->
+  1 <= blockSize -> valid_prefs p content -> fp_autoFlush p <> 0 -> lenZ content < U64_MAX1 ->
+  let blk := blk_hc_linked st in
+  let F := st_output c4_header (c4_frame blk) (c4_update blk) (c4_end blk) p blockSize [] content in
+  stream_decode strict_valid skipcrc (S (length F)) [] [] F = Some content.
+Proof. exact st_roundtrip_hc_stream_unconditional. Qed.
+Print Assumptions C04_st_roundtrip_hc_stream_unconditional.
